@@ -603,7 +603,7 @@ class Ev(Interp):
         "str::from_utf8": lambda a: _from_utf8(a[0]),
         "String::from_utf8": lambda a: _from_utf8(a[0]),
         "String::from_utf8_lossy": lambda a: bytes(a[0]).decode("utf-8", "replace"),
-        "String::from": lambda a: a[0],
+        "String::from": lambda a: chr(int(a[0])) if isinstance(a[0], CharV) else a[0],
         "drop": lambda a: (),
     }
     for _t in list(_INT_CONSTS) + list(_SINT_CONSTS):
@@ -953,6 +953,26 @@ class Ev(Interp):
                     return len(chr(c).encode("utf-8"))
                 if m == "to_string":
                     return chr(c)
+                if m == "is_alphabetic" and c < 128:
+                    return chr(c).isalpha()
+                if m == "is_ascii_alphabetic":
+                    return c < 128 and chr(c).isalpha()
+                if m == "is_ascii_alphanumeric":
+                    return c < 128 and chr(c).isalnum()
+                if m == "is_ascii_graphic":
+                    return 0x21 <= c <= 0x7e
+                if m == "is_ascii_whitespace":
+                    return c in (0x20, 0x09, 0x0a, 0x0c, 0x0d)
+            if m == "encode_utf8" and n == 1 and not 0xd800 <= c <= 0xdfff and c <= 0x10ffff:
+                # char::encode_utf8(&mut [u8]) -> &mut str: the encoding is stored at the front of the buffer (panics if it does not fit)
+                enc = chr(c).encode("utf-8")
+                buf = deref(a[0])
+                if not isinstance(buf, (list, bytearray)):
+                    raise Unsupported("encode_utf8 buffer")
+                if len(buf) < len(enc):
+                    raise Panic("encode_utf8: buffer of %d bytes for a %d-byte character" % (len(buf), len(enc)))
+                buf[:len(enc)] = list(enc)
+                return chr(c)
             return _NOIMPL
         if _isint(recv):
             return self._m_int(recv, m, a)
